@@ -81,109 +81,133 @@ pub fn erased_multiset(ds: &BTreeSet<Q>) -> BTreeMap<Q, usize> {
     m
 }
 
-/// cheap invariant: the quads in which `b` occurs, with `b` marked and the other labels erased
-fn signature(ds: &BTreeSet<Q>, b: &str) -> Vec<Q> {
-    let mut v: Vec<Q> = vec![];
-    for q in ds {
-        let mut bs = BTreeSet::new();
-        bnodes_q(q, &mut bs);
-        if bs.contains(b) {
-            v.push(map_q(q, &|x| Some(if x == b { "*".to_string() } else { String::new() })).unwrap());
+/// one side of the comparison: quads, blank node labels, and for each label the quads it occurs in
+struct Side {
+    quads: Vec<Q>,
+    labels: Vec<String>,
+    occ: Vec<Vec<usize>>,
+}
+
+impl Side {
+    fn new(ds: &BTreeSet<Q>) -> Side {
+        let quads: Vec<Q> = ds.iter().cloned().collect();
+        let labels: Vec<String> = bnodes(ds).into_iter().collect();
+        let index: BTreeMap<&str, usize> = labels.iter().enumerate().map(|(i, l)| (l.as_str(), i)).collect();
+        let mut occ = vec![vec![]; labels.len()];
+        for (k, q) in quads.iter().enumerate() {
+            let mut bs = BTreeSet::new();
+            bnodes_q(q, &mut bs);
+            for b in bs {
+                occ[index[b.as_str()]].push(k);
+            }
         }
+        Side { quads, labels, occ }
     }
-    v.sort();
-    v
 }
 
-struct Search<'a> {
-    a: &'a BTreeSet<Q>,
-    b: &'a BTreeSet<Q>,
-    order: Vec<String>,
-    cands: BTreeMap<String, Vec<String>>,
-    /// for each position in `order`: the quads of `a` whose blank nodes are all assigned once that
-    /// position is assigned (and not before)
-    ready: Vec<Vec<&'a Q>>,
-    steps: usize,
+type Interner = BTreeMap<(usize, Vec<Q>), usize>;
+
+/// one refinement round: the new colour of a node is its old colour together with the quads it occurs in, the node
+/// itself marked `*` and every other blank node replaced by its old colour
+fn round(side: &Side, col: &[usize], interner: &mut Interner) -> Vec<usize> {
+    let index: BTreeMap<&str, usize> = side.labels.iter().enumerate().map(|(i, l)| (l.as_str(), i)).collect();
+    (0..side.labels.len())
+        .map(|i| {
+            let me = side.labels[i].as_str();
+            let mut sig: Vec<Q> =
+                side.occ[i].iter().map(|k| map_q(&side.quads[*k], &|x| Some(if x == me { "*".to_string() } else { format!("#{}", col[index[x]]) })).unwrap()).collect();
+            sig.sort();
+            let n = interner.len();
+            *interner.entry((col[i], sig)).or_insert(n)
+        })
+        .collect()
 }
 
-impl<'a> Search<'a> {
-    fn go(&mut self, i: usize, asg: &mut BTreeMap<String, String>, used: &mut BTreeSet<String>) -> bool {
-        if i == self.order.len() {
+fn histogram(col: &[usize]) -> BTreeMap<usize, usize> {
+    let mut h = BTreeMap::new();
+    for c in col {
+        *h.entry(*c).or_insert(0) += 1;
+    }
+    h
+}
+
+/// refine both colourings in lock step until stable; false = the colour histograms differ (not isomorphic)
+fn refine(a: &Side, ca: &mut Vec<usize>, b: &Side, cb: &mut Vec<usize>) -> bool {
+    loop {
+        let before = histogram(ca).len();
+        let mut interner = Interner::new();
+        let na = round(a, ca, &mut interner);
+        let nb = round(b, cb, &mut interner);
+        if histogram(&na) != histogram(&nb) {
+            return false;
+        }
+        let after = histogram(&na).len();
+        *ca = na;
+        *cb = nb;
+        if after == before {
             return true;
         }
-        self.steps += 1;
-        let x = self.order[i].clone();
-        let cs = self.cands[&x].clone();
-        for c in cs {
-            if used.contains(&c) {
-                continue;
-            }
-            asg.insert(x.clone(), c.clone());
-            used.insert(c.clone());
-            let ok = self.ready[i].iter().all(|q| {
-                let m = map_q(q, &|l| asg.get(l).cloned());
-                match m {
-                    Some(m) => self.b.contains(&m),
-                    None => false,
-                }
-            });
-            if ok && self.go(i + 1, asg, used) {
-                return true;
-            }
-            used.remove(&c);
-            asg.remove(&x);
+    }
+}
+
+/// individualisation-refinement search
+fn search(a: &Side, ca: &mut Vec<usize>, b: &Side, cb: &mut Vec<usize>, bset: &BTreeSet<Q>) -> bool {
+    if !refine(a, ca, b, cb) {
+        return false;
+    }
+    let mut classes: BTreeMap<usize, Vec<usize>> = BTreeMap::new();
+    for (i, c) in ca.iter().enumerate() {
+        classes.entry(*c).or_default().push(i);
+    }
+    let pick = classes.iter().filter(|(_, v)| v.len() > 1).min_by_key(|(c, v)| (v.len(), **c));
+    match pick {
+        None => {
+            // discrete: the colouring *is* the bijection; check it maps every quad of `a` into `b`
+            let of_colour: BTreeMap<usize, &str> = cb.iter().enumerate().map(|(j, c)| (*c, b.labels[j].as_str())).collect();
+            let index: BTreeMap<&str, usize> = a.labels.iter().enumerate().map(|(i, l)| (l.as_str(), i)).collect();
+            a.quads.iter().all(|q| match map_q(q, &|l| of_colour.get(&ca[index[l]]).map(|s| s.to_string())) {
+                Some(m) => bset.contains(&m),
+                None => false,
+            })
         }
-        let _ = self.a;
-        false
+        Some((colour, members)) => {
+            let x = members[0];
+            let fresh = ca.iter().chain(cb.iter()).max().copied().unwrap_or(0) + 1;
+            let cands: Vec<usize> = (0..cb.len()).filter(|j| cb[*j] == *colour).collect();
+            for y in cands {
+                let mut ca2 = ca.clone();
+                let mut cb2 = cb.clone();
+                ca2[x] = fresh;
+                cb2[y] = fresh;
+                if search(a, &mut ca2, b, &mut cb2, bset) {
+                    return true;
+                }
+            }
+            false
+        }
     }
 }
 
 /// exact test: is there a bijection of blank node labels mapping `a` onto `b`?
+/// (colour refinement + individualisation: polynomial on the tree-, chain- and cycle-like shapes generated here)
 pub fn isomorphic(a: &BTreeSet<Q>, b: &BTreeSet<Q>) -> bool {
     if a.len() != b.len() {
-        return false;
-    }
-    let ba = bnodes(a);
-    let bb = bnodes(b);
-    if ba.len() != bb.len() {
         return false;
     }
     if erased_multiset(a) != erased_multiset(b) {
         return false;
     }
-    if ba.is_empty() {
+    let (sa, sb) = (Side::new(a), Side::new(b));
+    if sa.labels.len() != sb.labels.len() {
+        return false;
+    }
+    if sa.labels.is_empty() {
         return a == b;
     }
-    let sig_b: Vec<(String, Vec<Q>)> = bb.iter().map(|x| (x.clone(), signature(b, x))).collect();
-    let mut cands = BTreeMap::new();
-    for x in &ba {
-        let s = signature(a, x);
-        let c: Vec<String> = sig_b.iter().filter(|(_, t)| *t == s).map(|(y, _)| y.clone()).collect();
-        if c.is_empty() {
-            return false;
-        }
-        cands.insert(x.clone(), c);
-    }
-    let mut order: Vec<String> = ba.iter().cloned().collect();
-    order.sort_by_key(|x| cands[x].len());
-    let mut ready: Vec<Vec<&Q>> = vec![vec![]; order.len()];
-    for q in a {
-        let mut bs = BTreeSet::new();
-        bnodes_q(q, &mut bs);
-        if bs.is_empty() {
-            if !b.contains(q) {
-                return false;
-            }
-            continue;
-        }
-        let last = bs.iter().map(|l| order.iter().position(|o| o == l).unwrap()).max().unwrap();
-        ready[last].push(q);
-    }
-    let mut s = Search { a, b, order, cands, ready, steps: 0 };
-    let mut asg = BTreeMap::new();
-    let mut used = BTreeSet::new();
+    let mut ca = vec![0; sa.labels.len()];
+    let mut cb = vec![0; sb.labels.len()];
     // |a| = |b|, the renaming is injective on quads, every image is in b  =>  image = b
-    s.go(0, &mut asg, &mut used)
+    search(&sa, &mut ca, &sb, &mut cb, b)
 }
 
 /// difference of the label-erased multisets: (missing from `b`, extra in `b`)
@@ -231,5 +255,31 @@ mod test {
         let t3: BTreeSet<Q> = [q(T::Triple(Box::new([b("u"), i("p"), b("v")])), i("q"), b("v"))].into_iter().collect();
         assert!(isomorphic(&t1, &t2));
         assert!(!isomorphic(&t1, &t3));
+    }
+    #[test]
+    fn symmetric_and_large() {
+        // a 40-cycle against two 20-cycles, against a relabelled 40-cycle
+        let cyc = |n: usize, off: usize| -> Vec<Q> { (0..n).map(|k| q(b(&format!("c{}", off + k)), i("p"), b(&format!("c{}", off + (k + 1) % n)))).collect() };
+        let one: BTreeSet<Q> = cyc(40, 0).into_iter().collect();
+        let two: BTreeSet<Q> = cyc(20, 0).into_iter().chain(cyc(20, 100)).collect();
+        let ren: BTreeSet<Q> = (0..40).map(|k| q(b(&format!("z{}", (k * 7) % 40)), i("p"), b(&format!("z{}", ((k + 1) * 7) % 40)))).collect();
+        assert!(!isomorphic(&one, &two));
+        assert!(isomorphic(&one, &ren));
+        // 60 indistinguishable leaves under a chain
+        let chain = |pre: &str| -> BTreeSet<Q> {
+            let mut v = vec![];
+            for k in 0..60 {
+                v.push(q(b(&format!("{}{}", pre, k)), i("first"), b(&format!("{}leaf{}", pre, k))));
+                v.push(q(b(&format!("{}{}", pre, k)), i("rest"), b(&format!("{}{}", pre, k + 1))));
+            }
+            v.into_iter().collect()
+        };
+        assert!(isomorphic(&chain("x"), &chain("y")));
+        // a statement stated about the wrong node of two otherwise equal ones
+        let mut c1 = chain("x");
+        let mut c2 = chain("y");
+        c1.insert(q(b("xleaf3"), i("p"), i("o")));
+        c2.insert(q(b("yleaf4"), i("p"), i("o")));
+        assert!(!isomorphic(&c1, &c2));
     }
 }
